@@ -10,7 +10,8 @@
 (*               stderr before exiting 1),                                 *)
 (*        jok, j the JSON document on stdout, parsed and normalised by the *)
 (*               harness (hex -> bytes, numbers -> fixed-width LE bytes)]  *)
-(* Verdict = "ok" or the name of the failing clause.  A few clause names   *)
+(* Verdict = "ok", "open" (the specification leaves the outcome of this    *)
+(* invocation open) or the name of the failing clause.  A few clause names   *)
 (* recognise a NAMED deviation of the pinned code, so that the rest of the *)
 (* outcome is still checked: tx-build-result-returned-not-printed,         *)
 (* out-file-ignored, print-flag-ignored, bech32-witness-version-not-       *)
@@ -105,7 +106,7 @@ StatusVerdict(e, inv) ==
 Verdict(e) ==
     LET inv == InvOf(e) IN
     IF e.cmd \notin Commands THEN "unknown-command"
-    ELSE IF Unconstrained(inv) THEN "ok"
+    ELSE IF Unconstrained(inv) THEN "open"                      \* either outcome allowed: counted apart by the harness
     ELSE CASE Produces(inv) = "bytes"  -> BytesVerdict(e, inv)
            [] Produces(inv) = "json"   -> JsonVerdict(e, inv)
            [] Produces(inv) = "status" -> StatusVerdict(e, inv)
